@@ -72,6 +72,9 @@ def check (input impl : String) : Verdict :=
                 let st' := if i = -1 then { st with srcSubs := parseSubs ss } else { st with roots := (resubL i (parseSubs ss) 0 st.roots).1 }
                 go st' rest (obs.drop 1) ("." :: outs) sp (tags ++ ["resubscribe"])
               | none => (["bad-input"], sp, tags)
+            | ["restart"] =>
+              -- the source instance is replaced (prepareSource): the fresh instance subscribes as configured
+              go { st with srcSubs := st0.srcSubs } rest (obs.drop 1) ("." :: outs) sp (tags ++ ["source-restart"])
             | _ => (["bad-input"], sp, tags)
         let (outs, sp, tags) := go st0 ops implOps [] none []
         { model := joinWith " ; " outs, spec := sp, tags := tags.eraseDups }
